@@ -13,7 +13,9 @@ def taintAfter (t : Bool) : Op → Bool
   | .len | .bytes | .string | .cap | .off | .rewrite _ _ => t
   | _ => false
 
-/-- operations of the interface shared with `bytes.Buffer`; a scripted reader hands over at most `MinRead` bytes per call -/
+/-- operations of the interface shared with `bytes.Buffer`. A scripted reader hands over at most `MinRead` bytes per call
+    (or is greedy): then what it delivers does not depend on the size `cap-len` of the slice it is offered. A reader whose
+    output depends on that size observes the capacity policy, which is outside the contract in the same way as `Cap()`. -/
 def Common (c : Cfg) : Op → Prop
   | .cap | .off | .rewrite _ _ => False
   | .readFrom r => (∀ k ∈ r.sizes, k ≤ c.minRead) ∧ r.tail ≤ c.minRead
